@@ -28,7 +28,7 @@ BUDGET = {"quick": 80, "thorough": 800}
 
 @st.composite
 def init_cases(draw):
-    spec = draw(gens.problems(max_surveys=2, max_epochs=8, max_poly=3, n_rows=(6, 20), units=False, data_kinds=("list",)))
+    spec = draw(gens.problems(max_surveys=2, max_epochs=8, max_poly=3, n_rows=(6, 20), units=False, data_kinds=("list",), allow_f4=True))
     spec["time_input"] = "float"
     rows = spec["rows"]
     # extreme rows
@@ -115,7 +115,7 @@ def machine_factory(ctx):
             if not np.all(np.isfinite(self.base)):
                 raise Violation("non-finite likelihood for valid input", ll=self.base)
             self.chunk, _ = self.lib.pack(units=self.helper.internal_units, names=self.helper.packed_order)
-            self.chunk = np.ascontiguousarray(self.chunk)
+            self.chunk = np.ascontiguousarray(self.chunk, dtype=np.float64)  # (the public paths up-cast float32 libraries)
             self.distinct = len(set(self.base.tolist()))
             self.ready = True
 
